@@ -18,11 +18,11 @@ def props_of(b):
             out.add("C19")
             if not ev.get("refused"):
                 out.add("C07")   # the assembler accepted (and so reports as an instruction start) what did not fit
-        if w in ("refused_label", "labels", "d8", "d16", "ret") or w.startswith("finalize"):
+        if w in ("refused_label", "labels", "ret") or w.startswith("finalize"):
             out.add("C06")
-        if w in ("lines", "listing"):
+        if w in ("listing",):
             out.add("C15")
-        if w in ("append_refusal",):
+        if w in ("append_refusal",) or w.startswith("twin_"):
             out.add("C16")
         if w in ("decode",):
             out.add("C03")
@@ -35,7 +35,9 @@ def props_of(b):
                 out.add("C03")
             if k == "state":
                 out.add("C19" if ev.get("id") == 2 else "C03")
-        if w in ("base", "baseSet", "cap", "gen"):
+            if k in ("hex", "text"):
+                out.add("C15")
+        if w in ("base", "cap"):
             out.add("C16" if ev.get("id") == 1 else "C15")
     if ev.get("id") == 1 or ev.get("after") in ("append", "clone", "preappend"):
         out.add("C16")
